@@ -560,6 +560,22 @@ async fn conc_run(log: &Arc<VLog>, run: u64, rounds: u64) {
             }
             accts[ai].next_build_nonce = top;
         }
+        // one-shot accounts: fresh, funded accounts that submit exactly one transaction (nonce 0) during the round while the consensus
+        // side marks their nonce as used through another node. Their first transaction reaches a mempool that holds nothing of
+        // theirs yet, possibly in the middle of a maintenance run, and carries a nonce the chain has already used.
+        let mut oneshots: Vec<([u8; ADDRESS_LENGTH], String)> = vec![];
+        for _ in 0..rng.gen_range(4..10) {
+            let key = SigningKey::new(&mut rng);
+            let addr = key.address_bytes();
+            fixture.state_mut().put_account_balance(&addr, &assets[0], 100_000).unwrap();
+            let tx: Arc<CheckedTransaction> = fixture.checked_tx_builder().with_signer(key).with_nonce(0).with_rollup_data_submission(vec![3u8; rng.gen_range(1..40)]).build().await;
+            let name = vlog::hex(&addr);
+            let costs = tx.total_costs(fixture.state()).await.unwrap_or_default();
+            let meta = json!({"acct": name, "nonce": 0, "group": format!("{:?}", tx.group()), "costs": costs_json(&costs), "oneshot": true});
+            txs.push((usize::MAX, tx, meta));
+            oneshots.push((addr, name));
+        }
+        *shared.published.write().unwrap() = Arc::new(fixture.state_mut().fork());
         // distribute over submitters; some transactions are submitted by two tasks (the same bytes racing)
         let nsub = rng.gen_range(3..=6usize);
         let mut per: Vec<Vec<(Arc<CheckedTransaction>, serde_json::Value)>> = vec![vec![]; nsub];
@@ -712,9 +728,18 @@ async fn conc_run(log: &Arc<VLog>, run: u64, rounds: u64) {
                 *shared.published.write().unwrap() = Arc::new(fixture.state_mut().fork());
                 jitter(&mut rng).await;
             }
+            // the single transaction of some one-shot accounts got included through another node
+            for _ in 0..rng.gen_range(1..=3) {
+                if let Some((addr, _)) = oneshots.get(rng.gen_range(0..oneshots.len().max(1))) {
+                    fixture.state_mut().put_account_nonce(addr, 1).unwrap();
+                }
+            }
             let mut shown_nonces = serde_json::Map::new();
             for a in &accts {
                 shown_nonces.insert(a.name.clone(), json!(fixture.state().get_account_nonce(&a.addr).await.unwrap()));
+            }
+            for (addr, name) in &oneshots {
+                shown_nonces.insert(name.clone(), json!(fixture.state().get_account_nonce(addr).await.unwrap()));
             }
             log.ev(json!({"kind": "mc_call", "run": run, "round": round, "task": "consensus", "op": "maintenance", "height": height, "included": included,
                 "shown_nonces": shown_nonces}));
